@@ -1,10 +1,24 @@
 #!/bin/bash
-# usage: tools/mutant_run.sh <patch> <property> [budget]   (applies to /repo, runs the check, restores /repo)
+# usage: tools/mutant_run.sh <patch> <property> [budget]
+# Runs one check against a changed tree. Default: the patch is applied to a scratch git worktree of /repo
+# (under /tmp, removed afterwards) and the runner is pointed at it with VERIF_REPO, so /repo itself is never
+# touched and background runs are not disturbed. MUTANT_IN_REPO=1 applies it to /repo itself instead
+# (git -C /repo apply; run; git -C /repo checkout -- .).
 set -u
 patch=$(readlink -f "$1"); prop=$2; budget=${3:-10}
-cd /repo || exit 2
-if [ -n "$(git status --porcelain)" ]; then echo "/repo not clean"; exit 2; fi
-git apply "$patch" || { echo "patch does not apply"; exit 2; }
-trap 'git -C /repo checkout -- . ; git -C /repo clean -fdq' EXIT
-(env -u GOFLAGS -u GOTOOLCHAIN -u GOSUMDB go test -count=1 ./... >/dev/null 2>&1 && echo "repo tests: pass") || echo "repo tests: FAIL"
-cd /verif && VERIF_EVIDENCE_DIR=/tmp/verif-mutant-evidence VERIF_REPLAYS=${VERIF_REPLAYS:-/tmp/verif-mutant-replays} VERIF_BUDGET=$budget ./bin/verif check "$prop" 2>&1 | grep -E "VIOLATION|signature|detail|KNOWN|INFRA|^verif: property.*exit" | cut -c1-400
+E="env -u GOFLAGS -u GOTOOLCHAIN -u GOSUMDB"
+if [ "${MUTANT_IN_REPO:-0}" = 1 ]; then
+  cd /repo || exit 2
+  if [ -n "$(git status --porcelain)" ]; then echo "/repo not clean"; exit 2; fi
+  git apply "$patch" || { echo "patch does not apply"; exit 2; }
+  trap 'git -C /repo checkout -- . ; git -C /repo clean -fdq' EXIT
+  tree=/repo
+else
+  tree=$(mktemp -d /tmp/mutant-XXXXXX)
+  rmdir "$tree"
+  git -C /repo worktree add -q --detach "$tree" HEAD || exit 2
+  trap 'git -C /repo worktree remove --force "$tree" 2>/dev/null; git -C /repo worktree prune' EXIT
+  git -C "$tree" apply "$patch" || { echo "patch does not apply"; exit 2; }
+fi
+( cd "$tree" && $E go test -count=1 ./... >/dev/null 2>&1 && echo "repo tests: pass" ) || echo "repo tests: FAIL"
+cd /verif && VERIF_REPO=$tree VERIF_EVIDENCE_DIR=/tmp/verif-mutant-evidence VERIF_REPLAYS=${VERIF_REPLAYS:-/tmp/verif-mutant-replays} VERIF_BUDGET=$budget ./bin/verif check "$prop" 2>&1 | grep -E "VIOLATION|signature|detail|KNOWN|INFRA|note:|^verif: property.*exit" | cut -c1-400
